@@ -497,6 +497,15 @@ def run(ctx):
     c01_deductive.run(ctx)
     from contracts import c_export
     ctx.verify(c_export.names_engine(), c_export.VERIFY_NAMES)
+    from contracts import c_extmod
+    key, obs, info = c_extmod.port_loop_obligations()
+    for u in info.get("unsupported", []):
+        ctx.unsupported.append((key, u))
+    if len(obs) < 1 and not info.get("unsupported"):
+        ctx.checker_errors.append(f"no obligation generated for the port loop of {key}")
+    ctx.discharge(obs, key + " [port loop body: one declared signal of the port's name and width, one port naming it]", info)
+    ctx.assumptions.append("export_external_module: the port loop is proved per iteration (one arbitrary port, arbitrary "
+                           "earlier entries); the induction over port_list and protobuf's repeated-field append are assumed")
     from props.c01 import concat_designs
     cases = itertools.chain(design_family(ctx.tier, ctx.seed), concat_designs(), extra_programs(), compiled_programs(), edited_programs(), edited_after_export_programs(), faulted_programs(),
                             adversarial_programs(), param_programs(), extmodule_edit_programs(), repaired_parent_programs(), attribute_like_programs(), two_domain_programs())
